@@ -182,3 +182,19 @@ func PhiJoin(b bool, p *int) *int {
 func SliceTail(s []int, n int) []int { return s[n:] }
 
 func AssertIface(i any) error { return i.(error) }
+
+// Precision guards: a successful dereference / store / field access proves the operand non-nil.
+func DerefThenReturn(p *int) *int {
+	_ = *p
+	return p
+}
+
+func StoreThenReturn(p *int) *int {
+	*p = 1
+	return p
+}
+
+func FieldThenReturn(t *struct{ X int }) *struct{ X int } {
+	t.X = 2
+	return t
+}
